@@ -302,6 +302,136 @@ func Generate(r *run.Rand, o Opts) *Tree {
 	return t
 }
 
+// WideOpts describes a tree in which ONE language has a very long file list (>= 1024 files), the others few.
+type WideOpts struct {
+	Files int // number of files of the wide language (all outside ignored directories)
+}
+
+// GenerateWide draws a tree with 8 immediate sub-directories (plain, dotted, nested, one ignored, one empty) in which
+// one language has o.Files small files (1-3 code lines, at most one comment and one blank line) spread over all
+// populated directories and depths, about 40 of them "peaks" with 4-60 code lines placed at random, so that the N
+// files with most code lines are scattered over every directory (and over any order in which a counter lists
+// them). One to three other languages have 1-6 ordinary files each. At most four languages, so that the printed
+// top-file tables are not suppressed.
+func GenerateWide(r *run.Rand, o WideOpts) *Tree {
+	t := &Tree{}
+	perm := r.Perm(len(Langs))
+	wide := Langs[perm[0]]
+	others := []Lang{}
+	for _, i := range perm[1 : 1+r.Range(1, 3)] {
+		others = append(others, Langs[i])
+	}
+	dirSet := map[string]bool{}
+	addDir := func(d string) {
+		parts := strings.Split(d, "/")
+		for i := 1; i <= len(parts); i++ {
+			p := strings.Join(parts[:i], "/")
+			if !dirSet[p] {
+				dirSet[p] = true
+				t.Dirs = append(t.Dirs, p)
+			}
+		}
+	}
+	pick := func(pool []string) string {
+		for {
+			c := r.Pick(pool)
+			if !dirSet[c] {
+				return c
+			}
+		}
+	}
+	var populated []string
+	for _, k := range []string{"plain", "dotted", "nested", "ignored", "plain", "empty", "dotted", "nested"} {
+		var sd SubDir
+		switch k {
+		case "plain":
+			sd = SubDir{Name: pick(plainNames), Kind: k}
+			addDir(sd.Name)
+			populated = append(populated, sd.Name)
+		case "dotted":
+			sd = SubDir{Name: pick(dottedNames), Kind: k}
+			addDir(sd.Name)
+			populated = append(populated, sd.Name)
+		case "nested":
+			sd = SubDir{Name: pick(nestedNames), Kind: k}
+			addDir(sd.Name)
+			populated = append(populated, sd.Name)
+			a := sd.Name + "/" + r.Pick(innerNames)
+			addDir(a)
+			populated = append(populated, a)
+			b := a + "/" + r.Pick(innerNames)
+			addDir(b)
+			populated = append(populated, b)
+		case "ignored":
+			sd = SubDir{Name: pick(IgnoredNames), Kind: k, Ignored: true}
+			addDir(sd.Name)
+		case "empty":
+			sd = SubDir{Name: pick(plainNames), Kind: k}
+			addDir(sd.Name)
+		}
+		t.Subs = append(t.Subs, sd)
+	}
+	populated = append(populated, "") // root-level files too
+	peaks := map[int]bool{}
+	for len(peaks) < 40 {
+		peaks[r.Intn(o.Files)] = true
+	}
+	for i := 0; i < o.Files; i++ {
+		dir := populated[r.Intn(len(populated))]
+		rel := fmt.Sprintf("%s%d.%s", r.Pick(fileStems), i, wide.Ext)
+		if dir != "" {
+			rel = dir + "/" + rel
+		}
+		code := 1 + r.Intn(3)
+		if peaks[i] {
+			code = r.Range(4, 60)
+		}
+		t.Files = append(t.Files, smallFile(r, wide, rel, code))
+	}
+	seq := 0
+	for _, l := range others {
+		for k := r.Range(1, 6); k > 0; k-- {
+			seq++
+			dir := populated[r.Intn(len(populated))]
+			rel := fmt.Sprintf("%s_o%d.%s", r.Pick(fileStems), seq, l.Ext)
+			if dir != "" {
+				rel = dir + "/" + rel
+			}
+			t.Files = append(t.Files, genFile(r, l, rel, 12))
+		}
+	}
+	// the ignored directory holds a few files of the other languages only, so the wide list has exactly o.Files entries
+	for _, s := range t.Subs {
+		if s.Ignored {
+			for k := r.Range(1, 3); k > 0; k-- {
+				seq++
+				l := others[r.Intn(len(others))]
+				t.Files = append(t.Files, genFile(r, l, fmt.Sprintf("%s/ign%d.%s", s.Name, seq, l.Ext), 8))
+			}
+		}
+	}
+	return t
+}
+
+// smallFile: exactly `code` code lines, optionally one whole-line comment and one blank line, final newline.
+func smallFile(r *run.Rand, l Lang, rel string, code int) File {
+	f := File{Rel: rel, Lang: l.Name, Ext: l.Ext, Code: code}
+	var lines []string
+	if r.Chance(1, 3) {
+		lines = append(lines, l.Line+" "+commentText(r))
+		f.Comment = 1
+	}
+	for i := 0; i < code; i++ {
+		lines = append(lines, codeLine(r, l, true))
+		if i == 0 && r.Chance(1, 4) {
+			lines = append(lines, "")
+			f.Blank = 1
+		}
+	}
+	f.Content = strings.Join(lines, "\n") + "\n"
+	return f
+}
+
 func ident(r *run.Rand) string {
 	return r.Pick([]string{"count", "total", "idx", "value", "name", "node", "left", "right", "size", "acc", "tmp", "flag"}) + fmt.Sprint(r.Intn(90))
 }
